@@ -272,7 +272,8 @@ class Ctx:
             if 'Closed under the global context' in txt:
                 ax = []
             else:
-                ax = re.findall(r'^([A-Za-z0-9_.\']+)\s*:', txt, flags=re.M)
+                ax = [a for a in re.findall(r'^([A-Za-z0-9_.\']+)[ \t]*(?::|$)', txt, flags=re.M)
+                      if a not in ('Axioms', 'Axioms:')]
             bad = [a for a in ax if a not in STDLIB_AXIOMS]
             disch = not bad and not hits
             all_ok = all_ok and disch
